@@ -640,8 +640,9 @@ def rule_S6(ctx, rid='S6'):
             continue
         d = dotted(st.value.func) or ''
         tgt = st.targets[0].id
-        if tgt == 'index' and d in ('np.argmax', 'np.argmin', 'np.nanargmax', 'np.nanargmin') \
-                and st.value.args:
+        if d in ('np.argmax', 'np.argmin', 'np.nanargmax', 'np.nanargmin') and st.value.args \
+                and any(isinstance(x, ast.Attribute) and x.attr in ('block', 'log_v_all')
+                        for x in ast.walk(st.value.args[0])):
             a = st.value.args[0]
             ctx.require(isinstance(a, ast.Call) and dotted(a.func) == 'np.where' and
                         len(a.args) == 3, 'S6 not decided: split candidate `%s`'
@@ -659,14 +660,16 @@ def rule_S6(ctx, rid='S6'):
                    '`%s` can select a blocked member (the fill value wins the reduction, or the '
                    'mask is not `~self.block`): an ellipsoid with fewer than 2 * n_points_min '
                    'points, or one whose split was refused, is split again' % unparse(st)[:70])
-        if d in ('np.argmin', 'np.argmax') and st.value.args and tgt == 'label':
+        elif d in ('np.argmin', 'np.argmax') and st.value.args and \
+                not any(k.arg == 'axis' for k in st.value.keywords):
             src = st.value.args[0]
             counts = isinstance(src, ast.Name) and any(
                 isinstance(x, ast.Assign) and isinstance(x.targets[0], ast.Name) and
                 x.targets[0].id == src.id and isinstance(x.value, ast.Call) and
                 dotted(x.value.func) == 'np.bincount' for x in walk_no_nested(f.node)) or (
                 isinstance(src, ast.Call) and dotted(src.func) == 'np.bincount')
-            ctx.require(counts, 'S6 not decided: topped-up label `%s`' % unparse(st)[:60])
+            if not counts:
+                continue
             ok = d == 'np.argmin'
             n += 1
             ctx.ob(rid, 'Union.split:top-up-fills-the-smaller-cluster', ok, f.where(st),
